@@ -678,33 +678,73 @@ def gen_executor(ev):
             raise TranslatorError(f"_compute_full_step_hash: expected fragment missing: {need[:60]}")
 
     # skeletons the hand-written composition (model Fresh.exec_finish / new_run) was reviewed against
-    def skeleton(name, expect):
+    def skeleton(name, expect, quiet=False):
         f = find_function(tree, name, "Executor")
         got = [re.sub(r"\s+", " ", ast.unparse(s)) for s in body_without_docstring(f)]
         exp = [re.sub(r"\s+", " ", e) for e in expect]
         if got != exp:
+            if quiet:
+                return False
             for i, (g, e) in enumerate(zip(got + [""] * len(exp), exp + [""] * len(got))):
                 if g != e:
                     raise TranslatorError(f"Executor.{name}: statement {i} changed: {g[:200]!r} (expected {e[:200]!r})")
-    skeleton("execute_job", [
-        "self.scheduler.record_run_started(step.i)",
-        "run, new_hash = await self._new_run(job_i, step, inp_hashes, env_deps)",
-        "if new_hash is None: return",
-        "async with self.db: step.reset_for_rerun()",
-        "self._report_step_counts()",
-        "await self._run_command(run)",
-        "new_hash, new_inp_hashes, new_out_hashes = await self._compute_full_step_hash(run)",
-        "unexpected_input_changes = len(new_inp_hashes) > 0",
-        "async with self.db: new_hash, wants_defer = self._classify_execution(run, new_hash, new_inp_hashes, "
-        "unexpected_input_changes) self.workflow.update_file_hashes(new_out_hashes, cause=HashUpdateCause.SUCCEEDED "
-        "if run.success else HashUpdateCause.FAILED) run.interrupted_defer = step.mark_completed(new_hash, wants_defer) "
-        "self.scheduler.record_run_stopped(step.i, succeeded=new_hash is not None) "
-        "if wants_defer and (not run.interrupted_defer): run.outcome = None "
-        "if run.outcome is not None: step.set_outcome(run.outcome)",
-        "self._report_step_counts()",
-        "await self._report_run(run)",
-        "if unexpected_input_changes: await self._drain_for_unexpected_input_changes()",
-    ])
+        return True
+    def exec_skeleton(flag_call):
+        return [
+            "self.scheduler.record_run_started(step.i)",
+            "run, new_hash = await self._new_run(job_i, step, inp_hashes, env_deps)",
+            "if new_hash is None: return",
+            "async with self.db: step.reset_for_rerun()",
+            "self._report_step_counts()",
+            "await self._run_command(run)",
+            "new_hash, new_inp_hashes, new_out_hashes = await self._compute_full_step_hash(run)",
+            "unexpected_input_changes = len(new_inp_hashes) > 0",
+            "async with self.db: " + flag_call +
+            "new_hash, wants_defer = self._classify_execution(run, new_hash, new_inp_hashes, "
+            "unexpected_input_changes) self.workflow.update_file_hashes(new_out_hashes, cause=HashUpdateCause.SUCCEEDED "
+            "if run.success else HashUpdateCause.FAILED) run.interrupted_defer = step.mark_completed(new_hash, wants_defer) "
+            "self.scheduler.record_run_stopped(step.i, succeeded=new_hash is not None) "
+            "if wants_defer and (not run.interrupted_defer): run.outcome = None "
+            "if run.outcome is not None: step.set_outcome(run.outcome)",
+            "self._report_step_counts()",
+            "await self._report_run(run)",
+            "if unexpected_input_changes: await self._drain_for_unexpected_input_changes()",
+        ]
+    # Two reviewed shapes: with the completion-time check of the inputs against the hashes the
+    # command started from (first statement of the final transaction), and the older one without.
+    # Which one the source has is a generated fact; the theorems need the first.
+    flagging = skeleton("execute_job", exec_skeleton("self._flag_inputs_not_final(run, inp_hashes) "), quiet=True)
+    if not flagging:
+        skeleton("execute_job", exec_skeleton(""))
+    out.append("(* execute_job calls _flag_inputs_not_final(run, inp_hashes) first in its final transaction *)\n"
+               f"Definition exec_flags_inputs_not_final : bool := {'true' if flagging else 'false'}.")
+    FSx = ev["FileState"]
+    if flagging:
+        f = find_function(tree, "_flag_inputs_not_final", "Executor")
+        if [a.arg for a in f.args.args] != ["self", "run", "start_hashes"]:
+            raise TranslatorError("_flag_inputs_not_final signature changed")
+        fb = body_without_docstring(f)
+        if len(fb) != 1 or not isinstance(fb[0], ast.For) or ast.unparse(fb[0].target) != "rec" \
+                or ast.unparse(fb[0].iter) != "run.step.inp_paths()":
+            raise TranslatorError("_flag_inputs_not_final: not a single loop over run.step.inp_paths()")
+        t = Table("_flag_inputs_not_final.loop", [
+            ("continue", ("return", "unfresh")),
+            ("start_hash = start_hashes.get(rec.path)", ""),
+            ("run.unfresh.add(rec.path)", "let unfresh := true in"),
+            ("producer = self.workflow.find(File, rec.path).creator()", ""),
+        ], [
+            (R(r"rec\.state not in (?P<set>\(.*\))"), lambda m: f"(negb {fs_in(ev, 'st')(m)})"),
+            ("start_hash is not None", "in_snapshot"),
+            ("start_hash != rec.hash", "negb same_hash"),
+            (R(r"rec\.state == FileState\.(?P<n>\w+)"), lambda m: f"(st =? {FSx[m.group('n')]})"),
+            ("isinstance(producer, Step) and self.scheduler.ran_concurrently(producer.i, run.step.i)",
+             "(producer_is_step && ran_conc)"),
+        ], final="unfresh")
+        out.append("(* one iteration of the loop of Executor._flag_inputs_not_final: is the input reported unfresh? *)\n"
+                   "Definition flag_input_gen (st : N) (in_snapshot same_hash producer_is_step ran_conc : bool) : bool :=\n"
+                   "  let unfresh := false in\n  " + t.block(fb[0].body, None) + ".")
+    else:
+        out.append("Definition flag_input_gen (st : N) (in_snapshot same_hash producer_is_step ran_conc : bool) : bool := false.")
     skeleton("_new_run", [
         "run = Run(step, job_i=job_i)",
         "new_step_hash, new_inp_hashes = await self._compute_inp_step_hash(run, inp_hashes, env_deps)",
